@@ -7,6 +7,7 @@ import Cnl2aspModel.Compiler.TemporalRange
 import Cnl2aspModel.Compiler.Cli
 import Cnl2aspModel.Asp.PrintAtom
 import Cnl2aspModel.Asp.PrintProg
+import Cnl2aspModel.Asp.Gram
 import Cnl2aspModel.Compiler.Route
 import Cnl2aspModel.Compiler.Signatures
 import Cnl2aspModel.Compiler.Naming
@@ -388,7 +389,8 @@ def print (j : Json) : Json :=
   let m := mode j
   let e := parseEncoding j
   Json.mkObj [("text", Json.str (printEncoding m e)),
-              ("rules", Json.arr ((e.programs.flatMap fun p => p.rules.map fun r => Json.str (printRule m r)).toArray))]
+              ("rules", Json.arr ((e.programs.flatMap fun p => p.rules.map fun r => Json.str (printRule m r)).toArray)),
+              ("wf", Json.arr ((e.programs.flatMap fun p => p.rules.map fun r => Json.bool (Gram.wfRule r)).toArray))]
 
 end C06P
 
